@@ -38,6 +38,11 @@ def _snapshot_world():
                 snap.append((mod, attr, val, type(val)(val)))
             elif type(val) in (int, bool, float):
                 snap.append((mod, attr, None, val))
+            elif isinstance(val, type) and getattr(val, '__module__', None) == name:
+                # containers kept on the classes the module defines are process-wide state just the same
+                for cattr, cval in list(vars(val).items()):
+                    if not cattr.startswith('__') and type(cval) in (dict, list, set):
+                        snap.append((val, cattr, cval, type(cval)(cval)))
     return snap
 
 
@@ -49,6 +54,10 @@ def reset_world():
         if container is None:
             if vars(mod).get(attr) != saved:
                 setattr(mod, attr, saved)
+        elif vars(mod).get(attr) is not container:
+            setattr(mod, attr, container)
+            container.clear()
+            (container.extend if type(container) is list else container.update)(saved)
         elif type(container) is list:
             if container != saved:
                 container[:] = saved
@@ -468,9 +477,10 @@ def plan(tier):
             # 'decorator' has twice the critical points of any other scenario: its two-pre-emption run is the thorough tier's
             runs.append((scen, 2, 'critical', 1 if scen == 'decorator' else 2))
             runs.append((scen, 2, 'shared', 1))
-        for scen in ('wraps', 'forged2'):
-            runs.append((scen, 2, 'all', 1))          # reduction validation
-            runs.append((scen, 3, 'critical', 1))
+        for scen in ('wraps', 'forged2', 'pok'):
+            runs.append((scen, 2, 'all', 1))          # reduction validation; 'pok': the walk over a shared parsed source
+            if scen != 'pok':
+                runs.append((scen, 3, 'critical', 1))
         runs = [r for r in runs if r[0] not in ('deepchain', 'cachefill')]
         runs.append(('deepchain', 2, 'critical', 1))
         runs.append(('cachefill', 2, 'shared', 1))
